@@ -1298,6 +1298,10 @@ def observe_trunc(W, nd, s):
     cheap = affordable(W, nd, s["lo"], 9) and affordable(W, nd, s["hi"], 9)
     if not want and not cheap:
         return "skipped"
+    if want and not cheap:
+        # a correct hasher refuses before computing the digest; bound the cost of a wrong one (never run at huge costs)
+        if "error" in s["lo"] or "error" in s["hi"] or max(est_ms(M, s["lo"]), est_ms(M, s["hi"])) > 400.0:
+            return "skipped"
     long_pw = "x" * (M.trunc_size + 1)
     try:
         with env.scripted_rng(PinRng("lo", W.fa)):
